@@ -29,3 +29,52 @@ def check(run):
     run.floor("F-TABLE/kind-branch", n, 18)
     units.check_tree_builders(run, P)
     units.check_query_siblings(run, P)
+    _query_preparation(run, P)
+
+
+def _query_preparation(run, P):
+    """_prepare_xy_for_query: the column swap to (lat, lon) depends on the metric ONLY and the degree->radian conversion on
+    use_radians ONLY - checked on every returning path (truth table over the two atoms)."""
+    import ast
+    from ..astutil import norm, where
+    from ..flow import enumerate_paths
+    from ..loader import dotted
+    f = P.func(f"{NEI}:_prepare_xy_for_query")
+    p0 = f.params()[0]
+    paths = [p for p in enumerate_paths(f.node.body) if p.exit == "return"]
+    seen = {}
+    for p in paths:
+        facts = p.cond_facts()
+        hav = next((v for k, v in facts.items() if "haversine" in k and "==" in k), None)
+        rad = facts.get("use_radians")
+        flips = conv = 0
+        for e in p.events:
+            if isinstance(e, ast.Assign) and norm(e.targets[0]) == p0 and isinstance(e.value, ast.Call):
+                nm = (dotted(e.value.func) or [""])[-1]
+                if nm in ("flip", "fliplr") and e.value.args and norm(e.value.args[0]) == p0:
+                    flips += 1
+                elif nm in ("deg2rad", "radians") and norm(e.value.args[0]) == p0:
+                    conv += 1
+                elif isinstance(e.value, ast.Subscript):
+                    pass
+            if isinstance(e, ast.Assign) and norm(e.targets[0]) == p0 and isinstance(e.value, ast.Subscript) and norm(e.value.value) == p0 and "::-1" in norm(e.value.slice).replace(" ", ""):
+                flips += 1
+        # an atom not tested on this path: the path stands for both of its values
+        for hv in ([hav] if hav is not None else [True, False]):
+            for rd in ([rad] if rad is not None else [True, False]):
+                seen[(hv, rd)] = (flips % 2 == 1, conv)
+    c = f"{f.key}:swap-and-units-independent"
+    if len(seen) < 4:
+        run.incomplete("F-UNIT/query-preparation", c, where(f), f"only {sorted(seen)} of the 4 (haversine, use_radians) combinations reach a return")
+        return
+    probs = []
+    for (hav, rad), (flipped, conv) in sorted(seen.items()):
+        if flipped != hav:
+            probs.append(f"metric haversine={hav}, in_radians={rad}: columns {'are' if flipped else 'are not'} swapped to (lat, lon)")
+        if conv != (0 if rad else 1):
+            probs.append(f"metric haversine={hav}, in_radians={rad}: {conv} degree->radian conversion(s)")
+    if probs:
+        run.violation("F-UNIT/query-preparation", c, where(f), "; ".join(probs) + " - the haversine tree is built from (lat, lon) in radians whatever unit the query uses")
+    else:
+        run.holds("F-UNIT/query-preparation", c, where(f), "swap iff haversine, conversion iff degrees, on all four combinations", facts={str(k): v for k, v in seen.items()})
+
